@@ -1,6 +1,11 @@
 """Sidecar contracts on the real gemseo functions, one module per property (DESIGN.md §4)."""
 
 PROPS = {
+    "C02": {
+        "level_text": "Proof of the representation invariant of DesignSpace over its mutators.",
+        "level_note": "see evidence",
+        "modules": ["contracts.c02_design_space"],
+    },
     "C03": {
         "level_text": "Proof of the budget mechanism on gemseo's side of the algorithm/problem interface.",
         "level_note": "see evidence",
